@@ -62,6 +62,12 @@ LeafSchemas ==
     obj_map     |-> [type |-> "object", additionalProperties |-> [type |-> "integer", minimum |-> 4]],
     obj_mapprops|-> [type |-> "object", properties |-> [a |-> [type |-> "string"]], additionalProperties |-> [type |-> "integer", maximum |-> 4]],
     obj_count   |-> [type |-> "object", additionalProperties |-> [type |-> "string"], minProperties |-> 1, maxProperties |-> 2],
+    \* property counts on an object with declared properties and no additionalProperties keyword, one bound only
+    obj_minprops|-> [type |-> "object", properties |-> [a |-> [type |-> "string"], b |-> [type |-> "integer"]], minProperties |-> 1],
+    obj_maxprops|-> [type |-> "object", properties |-> [a |-> [type |-> "string"], b |-> [type |-> "integer"]], maxProperties |-> 1],
+    \* declared properties next to additionalProperties whose values are arrays / maps
+    obj_maparr  |-> [type |-> "object", properties |-> [a |-> [type |-> "string"]], additionalProperties |-> [type |-> "array", items |-> [type |-> "integer"]]],
+    obj_mapmap  |-> [type |-> "object", properties |-> [a |-> [type |-> "string"]], additionalProperties |-> [type |-> "object", additionalProperties |-> [type |-> "string"]]],
     obj_allof   |-> [allOf |-> << [type |-> "object", required |-> <<"a">>, properties |-> [a |-> [type |-> "integer", minimum |-> 4]]],
                                   [type |-> "object", properties |-> [b |-> [type |-> "string", minLength |-> 2]]] >>] ]
 
@@ -123,6 +129,7 @@ SpecialSchemas ==
     sp_alias_uuid_user |-> [type |-> "object", required |-> <<"id">>, properties |-> [id |-> [ref |-> "sp_alias_uuid"], ids |-> [type |-> "array", items |-> [ref |-> "sp_alias_uuid"]]]],
     sp_pet        |-> [type |-> "object", discriminator |-> "kind", required |-> <<"kind", "name">>,
                        properties |-> [kind |-> [type |-> "string"], name |-> [type |-> "string"]]],
+    sp_feline     |-> ("allOf" :> <<[ref |-> "sp_pet"], [type |-> "object", properties |-> [lives |-> [type |-> "integer"]]]>>) @@ ("x-go-name" :> "HouseFeline"),
     sp_cat        |-> [allOf |-> <<[ref |-> "sp_pet"], [type |-> "object", properties |-> [claws |-> [type |-> "integer", minimum |-> 2]]]>>],
     sp_dog        |-> [allOf |-> <<[ref |-> "sp_pet"], [type |-> "object", required |-> <<"bark">>, properties |-> [bark |-> [type |-> "string"]]]>>],
     sp_zoo        |-> [type |-> "object", properties |-> [star |-> [ref |-> "sp_pet"], all |-> [type |-> "array", items |-> [ref |-> "sp_pet"]]]],
@@ -150,12 +157,15 @@ SpecialInstances(name) ==
     [] name = "sp_alias_uuid_user" -> {Obj([id |-> UUID]), Obj([id |-> UUID, ids |-> Arr(<<UUID, UUID>>)]), Obj([id |-> Str("a")]), Obj(<<>>), Obj([id |-> UUID, ids |-> Arr(<<Str("b")>>)])}
     [] name = "sp_pet" -> {Cat("a", 4), Dog("b", "ab"), Obj([kind |-> Str("sp_cat")]), Obj([name |-> Str("a")])}
     [] name = "sp_cat" -> {Cat("a", 4), Cat("a", 0), Obj([kind |-> Str("sp_cat"), name |-> Str("a")]), Obj([kind |-> Str("sp_cat"), name |-> Str("a"), claws |-> Str("x")])}
+    [] name = "sp_feline" -> {Obj([kind |-> Str("sp_feline"), name |-> Str("a"), lives |-> Num(18)]), Obj([kind |-> Str("sp_feline"), name |-> Str("a")]),
+                              Obj([kind |-> Str("sp_feline")])}
     [] name = "sp_dog" -> {Dog("b", "ab"), Obj([kind |-> Str("sp_dog"), name |-> Str("b")])}
     [] name = "sp_shape" -> {Obj([stype |-> Str("org.example.Circle"), label |-> Str("a"), radius |-> Num(4)]), Obj([label |-> Str("a")])}
     [] name = "sp_circle" -> {Obj([stype |-> Str("org.example.Circle"), label |-> Str("a"), radius |-> Num(4)]), Obj([stype |-> Str("org.example.Circle")])}
     [] name = "sp_drawing" -> {Obj(<<>>), Obj([main |-> Obj([stype |-> Str("org.example.Circle"), label |-> Str("a"), radius |-> Num(4)])]),
                                 Obj([shapes |-> Arr(<<Obj([stype |-> Str("org.example.Circle"), radius |-> Num(6)])>>)])}
     [] name = "sp_zoo" -> {Obj(<<>>), Obj([star |-> Cat("a", 4)]), Obj([star |-> Dog("b", "ab"), all |-> Arr(<<Cat("a", 4), Dog("c", "a")>>)]),
+                            Obj([star |-> Obj([kind |-> Str("sp_feline"), name |-> Str("a"), lives |-> Num(18)])]),
                             Obj([all |-> Arr(<<>>)]), Obj([all |-> Arr(<<Cat("a", 6)>>)])}
 
 DefKeys == {<<l, w>> \in Leaves \X Wrappers : WrapOK(l, w)}
@@ -200,6 +210,13 @@ LeafVals(leaf) ==
     [] leaf = "obj_map"    -> {Obj(<<>>), Obj([k |-> Num(4)]), Obj([k |-> Num(2)]), Obj([k |-> Num(0)]), Obj([k |-> Num(4), j |-> Num(2)]), Obj([k |-> Str("a")])}
     [] leaf = "obj_mapprops" -> {Obj(<<>>), Obj([a |-> Str("a")]), Obj([a |-> Str("a"), k |-> Num(4)]), Obj([a |-> Str("a"), k |-> Num(6)]),
                                  Obj([k |-> Num(6)]), Obj([a |-> Num(2)]), Obj([a |-> Str(""), k |-> Num(0)])}
+    [] leaf = "obj_minprops" -> {Obj(<<>>), Obj([a |-> Str("a")]), Obj([a |-> Str("a"), b |-> Num(2)]), Obj([z |-> Num(2)])}
+    [] leaf = "obj_maxprops" -> {Obj(<<>>), Obj([a |-> Str("a")]), Obj([a |-> Str("a"), b |-> Num(2)]), Obj([a |-> Str("a"), z |-> Num(2)]), Obj([b |-> Num(4)])}
+    [] leaf = "obj_maparr" -> {Obj(<<>>), Obj([a |-> Str("a")]), Obj([k |-> Arr(<<Num(2), Num(4)>>)]),
+                               Obj([a |-> Str("b"), k |-> Arr(<<Num(2), Num(4), Num(6)>>), j |-> Arr(<<Num(8), Num(10)>>), i |-> Arr(<<Num(12)>>)]),
+                               Obj([k |-> Arr(<<Num(2)>>), j |-> Arr(<<>>)]), Obj([k |-> Arr(<<Str("a")>>)])}
+    [] leaf = "obj_mapmap" -> {Obj(<<>>), Obj([k |-> Obj([x |-> Str("a")])]), Obj([a |-> Str("a"), k |-> Obj([x |-> Str("a")]), j |-> Obj([y |-> Str("b")])]),
+                               Obj([k |-> Obj(<<>>), j |-> Obj([y |-> Str("b"), z |-> Str("ab")])]), Obj([k |-> Obj([x |-> Num(2)])])}
     [] leaf = "obj_count"  -> {Obj(<<>>), Obj([k |-> Str("a")]), Obj([k |-> Str("a"), j |-> Str("b")]), Obj([k |-> Str("a"), j |-> Str("b"), i |-> Str("")])}
 
 \* a value of the leaf that is valid (used as filler)
